@@ -176,6 +176,15 @@ Theorem c01_mem_route_correct_intact :
 Proof. exact mh_redirect_intact_correct. Qed.
 Print Assumptions c01_mem_route_correct_intact.
 
+(** LayoutHandler.transpose with a spare buffer: the source array afterwards is the source array given - all cells of
+    all ranks, not only the block (in the model no writing phase receives it: pack writes dest, Alltoall writes buf
+    or dest, the unpack writes dest) *)
+Theorem c01_source_intact :
+  forall (V : Type) (dflt : V) (Nl nprocs : list nat) (d' : nat) (cur : list nat) (steps : list (list nat)) (src dst buf : mems V),
+  fst (fst (mh_transpose V dflt Nl nprocs d' cur steps true src dst buf)) = src.
+Proof. intros. apply transpose_m_src_same. Qed.
+Print Assumptions c01_source_intact.
+
 (** non-vacuity: shape [3;2], two processes (blocks of 1 and 2 rows), [0;1] -> [1;0], arrays of 8 cells filled with
     7 (source), 8 (dest), 9 (buf) beyond the block.  Without a buffer the source array becomes the receive
     buffer (the 8s are the senders' dest padding); with one it is buf; dest keeps packed cells beyond its block. *)
